@@ -98,6 +98,21 @@ def worker(args):
                 obj2, _ = fitgen.reload_obj(obj)
                 stats["reloaded"] += 1
                 fs += check_object(drv, obj2, X, " (object rebuilt from JSON)")
+                # ... and the rebuilt object still labels the non-missing values it labelled before the export (after an edit that
+                # merged the missing values into a group, the per-feature "missing values are grouped" flag must survive)
+                o1, e1, _, _ = fitgen.run_transform(obj, X)
+                o2, e2, _, _ = fitgen.run_transform(obj2, X)
+                if o1 is not None and o2 is not None:
+                    raw = dict(fitgen.raw_inputs(obj, X))
+                    d2 = dict(o2)
+                    for k, col in o1:
+                        if k in raw and k in d2:
+                            lost = [i for i, (a, b, x) in enumerate(zip(col, d2[k], raw[k])) if x is not None and a is not None and b is None]
+                            if lost:
+                                fs.append({"kind": "property", "what": "the object rebuilt from JSON sends seen, non-missing values to missing "
+                                           "(the original gives them their group's label)", "feature": k, "rows": lost[:5],
+                                           "values": [raw[k][i] for i in lost[:5]], "labels": [col[i] for i in lost[:5]]})
+                                break
             except Exception as e:
                 pass   # C06's business
             d = None
